@@ -153,6 +153,7 @@ def judge_segmentation(sc, lines_in, impl_out, require_complete=True):
     accepted = []
     frames = []          # data frames in order
     outcome = {}
+    done_pos = {}
     for r in trace.records(lines_in, impl_out):
         if r.op == 'send':
             rid = int(r.toks[2])
@@ -170,6 +171,7 @@ def judge_segmentation(sc, lines_in, impl_out, require_complete=True):
                     frames.append(e)
             elif e['k'] == 'done':
                 outcome[e['id']] = e['ok']
+                done_pos.setdefault(e['id'], len(frames))      # every frame of a request is emitted before its completion
     # expected stream: concatenation of the segmentations of the accepted requests in order
     pos = 0
     for rid in accepted:
@@ -195,6 +197,10 @@ def judge_segmentation(sc, lines_in, impl_out, require_complete=True):
             break
         exp = ref.segment(pl, prefix=prefix, **tc)
         got = frames[pos:pos + len(exp)]
+        if outcome.get(rid) is False and rid in done_pos:
+            # an ABORTED request (Overflow, timeout, stop_sending ...) owns only the frames emitted before its completion: what follows
+            # belongs to the next request in the queue
+            got = frames[pos:min(pos + len(exp), max(pos, done_pos[rid]))]
         functional = tat[rid] == 1
         for k, fr in enumerate(got):
             if fr['data'] != exp[k]:
